@@ -179,6 +179,13 @@ func dump(v reflect.Value, path string, sb *strings.Builder, inline bool) {
 		for i := 0; i < v.Len(); i++ {
 			dump(v.Index(i), fmt.Sprintf("%s[%d]", path, i), sb, inline)
 		}
+		// the rest of the backing array: what an append within capacity by somebody sharing it would write
+		if v.Cap() > v.Len() && !inline {
+			full := v.Slice(0, v.Cap())
+			for i := v.Len(); i < v.Cap(); i++ {
+				dump(full.Index(i), fmt.Sprintf("%s[spare %d]", path, i), sb, inline)
+			}
+		}
 	case reflect.Array:
 		for i := 0; i < v.Len(); i++ {
 			dump(v.Index(i), fmt.Sprintf("%s[%d]", path, i), sb, inline)
@@ -223,7 +230,8 @@ func FirstDiff(a, b string) string {
 
 // MutateAll changes every piece of mutable memory reachable from v: every settable scalar, every
 // element of every slice (scalars changed, pointers / interfaces / slices / maps overwritten with nil after
-// what they designate has been changed), every map (values changed, one entry added). It returns how many
+// what they designate has been changed), every slot of a backing array between len and cap (what an append
+// within capacity writes), every map (values changed, one entry added). It returns how many
 // writes it made. Whatever shares memory with v sees at least one of these writes.
 func MutateAll(v any) int {
 	n := 0
@@ -299,6 +307,39 @@ func mutate(v reflect.Value, n *int, seen map[uintptr]bool) {
 				if e.CanSet() && !e.IsNil() {
 					e.Set(reflect.Zero(e.Type()))
 					*n++
+				}
+			}
+		}
+		// append within capacity: write every slot of the backing array beyond len
+		if v.Cap() > v.Len() {
+			full := v.Slice(0, v.Cap())
+			for i := v.Len(); i < v.Cap(); i++ {
+				e := full.Index(i)
+				if !e.CanSet() {
+					continue
+				}
+				if m, ok := mutated(e); ok {
+					e.Set(m)
+					*n++
+					continue
+				}
+				switch e.Kind() {
+				case reflect.Ptr:
+					e.Set(reflect.New(e.Type().Elem()))
+					*n++
+				case reflect.Slice:
+					e.Set(reflect.MakeSlice(e.Type(), 1, 1))
+					*n++
+				case reflect.Map:
+					e.Set(reflect.MakeMap(e.Type()))
+					*n++
+				case reflect.Interface:
+					if x := reflect.ValueOf("~appended"); x.Type().AssignableTo(e.Type()) {
+						e.Set(x)
+						*n++
+					}
+				case reflect.Struct:
+					mutate(e, n, seen)
 				}
 			}
 		}
